@@ -54,6 +54,8 @@ type raceW struct {
 	nusers    int
 	peerDone  bool
 	peerFd    int
+	peer2Done bool
+	peer2Fd   int
 	loops     []EventLoop // confinement: per loop, nesting of callbacks and the thread they run on
 	inCb      []int
 	loopThr   []int
@@ -160,7 +162,9 @@ func (r *raceW) isBooted() bool { return r.booted == 1 }
 func (r *raceW) hasConn() bool { return r.conn.Load() != nil }
 
 //go:norace
-func (r *raceW) allDone() bool { return r.usersDone >= r.nusers && r.peerDone }
+func (r *raceW) allDone() bool {
+	return r.usersDone >= r.nusers && r.peerDone && (r.cfg.kind != "count-close" || r.peer2Done)
+}
 
 //go:norace
 func (r *raceW) isRunDone() bool { return r.runDone }
@@ -207,8 +211,37 @@ func (r *raceW) peerThread() {
 		// keep the connection open: it is closed by the user thread / the shutdown
 		sched.BlockUntil(r.usersFinished)
 	}
+	if r.cfg.kind == "count-close" {
+		// the OLDER of two connections goes first (the compacting registry of the gc_opt build then
+		// relocates the newer one) while the user threads are reading the connection count
+		sched.BlockUntil(r.twoOpened)
+	}
 	_ = mcsys.PClose(fd)
 	r.peerDone = true
+}
+
+//go:norace
+func (r *raceW) twoOpened() bool { return r.opened >= 2 }
+
+//go:norace
+func (r *raceW) peer2Readable() bool { return mcsys.FdReadable(r.peer2Fd) }
+
+//go:norace
+func (r *raceW) peer2Thread() {
+	sched.BlockUntil(r.hasConn) // after the first connection
+	fd, err := mcsys.PConnectUnix(r.path)
+	if err != nil {
+		r.peer2Done = true
+		return
+	}
+	r.peer2Fd = fd
+	_, _ = mcsys.PWrite(fd, []byte("pong"))
+	buf := make([]byte, 64)
+	sched.BlockUntil(r.peer2Readable)
+	_, _ = mcsys.PRead(fd, buf)
+	sched.BlockUntil(r.usersFinished)
+	_ = mcsys.PClose(fd)
+	r.peer2Done = true
 }
 
 //go:norace
@@ -247,8 +280,21 @@ func (r *raceW) userA() {
 	case "stop":
 		_ = eng.CountConnections()
 		_ = eng.Stop(context.Background())
+	case "count-close":
+		sched.BlockUntil(r.twoOpened)
+		_ = eng.CountConnections()
+		_ = eng.CountConnections()
 	case "execute-register":
 		_ = c.EventLoop().Execute(context.Background(), raceRunnable{r})
+		if nc, pfd, err := socketpairConn(); err == nil {
+			r.dupFds = append(r.dupFds, pfd)
+			if ch, err := eng.Register(NewNetConnContext(context.Background(), nc)); err == nil {
+				waitRegistered(ch)
+			}
+		}
+	case "register-fault":
+		// Register while the poller refuses the registration (epoll_ctl ADD fails, injected as an
+		// environment deviation): the error travels from the loop to this goroutine
 		if nc, pfd, err := socketpairConn(); err == nil {
 			r.dupFds = append(r.dupFds, pfd)
 			if ch, err := eng.Register(NewNetConnContext(context.Background(), nc)); err == nil {
@@ -260,6 +306,14 @@ func (r *raceW) userA() {
 		c.SetContext("from another goroutine")
 	}
 	r.usersDone++
+}
+
+//go:norace
+func raceRegisterFault(site string, fd int, n int) []string {
+	if site == "epoll_ctl_add" && mcsys.KindOf(fd) == "dup" {
+		return []string{"ENOMEM"}
+	}
+	return nil
 }
 
 //go:norace
@@ -289,6 +343,11 @@ func (r *raceW) userB() {
 		_ = c.Wake(r.asyncCb)
 		_ = c.AsyncWrite([]byte("late"), r.asyncCb)
 		_ = c.AsyncWritev([][]byte{[]byte("later")}, r.asyncCb)
+	case "count-close":
+		sched.BlockUntil(r.twoOpened)
+		_ = eng.CountConnections()
+		_ = c.Fd()
+		_ = eng.CountConnections()
 	case "stop":
 		_ = c.AsyncWrite([]byte("x"), r.asyncCb)
 		_ = eng.CountConnections()
@@ -331,7 +390,13 @@ func (r *raceW) Body() {
 	case "control-setcontext":
 		r.nusers = 1
 	}
+	if r.cfg.kind == "register-fault" {
+		mcsys.Deviate = raceRegisterFault
+	}
 	sched.Go("peer", r.peerThread)
+	if r.cfg.kind == "count-close" {
+		sched.Go("peer2", r.peer2Thread)
+	}
 	if r.cfg.kind != "count-during-start" {
 		sched.Go("userA", r.userA)
 		if r.nusers > 1 {
@@ -433,7 +498,7 @@ func (r *raceW) Check(out *sched.Outcome) (string, string) {
 
 func raceConfigs() []raceCfg {
 	var out []raceCfg
-	kinds := []string{"async", "close", "sockopts", "stop", "execute-register", "count-during-start"}
+	kinds := []string{"async", "close", "sockopts", "stop", "execute-register", "count-during-start", "count-close", "register-fault"}
 	for _, k := range kinds {
 		for _, et := range []bool{false, true} {
 			loops := 1
@@ -458,6 +523,10 @@ func TestMC_C05(t *testing.T) {
 	var cfgs []sched.Config
 	for _, c := range raceConfigs() {
 		c := c
+		bounds := bounds
+		if c.kind == "register-fault" {
+			bounds = []sched.Bound{{PB: 0, DB: 0}, {PB: 0, DB: 1}, {PB: 1, DB: 1}}
+		}
 		cfgs = append(cfgs, sched.Config{Property: "C05", Name: c.name, Bounds: bounds, Horizon: 40000, Deadline: seqmc.Deadline(), DelayBounded: true, NoReplayConfirm: true, New: func() sched.Scenario {
 			return &raceW{cfg: c, addr: "unix://" + sockPath(), path: sockPath()}
 		}})
